@@ -166,6 +166,15 @@ def lits_for(rnd, signed, n, f, radix, count):
             num = 2 * end + rnd.choice((1, -1))
             si, sf = expand(abs(num), f + 1, radix)
             variants(num < 0, si, sf)
+        elif c < 85:
+            # integer part already beyond the range AND a fraction that rounds up / carries into it
+            base = rnd.choice((hi + 1, hi + 2, (1 << n), (1 << n) + 1, lo - 1, lo - 2, -(1 << n) - 1))
+            intpart = abs(base) >> f if f < n else 0
+            intpart += rnd.randrange(0, 3)
+            si, _ = expand(intpart, 0, radix)
+            frac = rnd.choice((DIG[radix - 1] * rnd.randrange(1, 12), DIG[radix // 2] + DIG[rnd.randrange(1, radix)],
+                               DIG[radix // 2], DIG[radix - 1] + DIG[radix // 2] * 3, DIG[radix // 2] + "0" * 5 + "1"))
+            emit(base < 0, si, frac)
         elif c < 88:
             # big integers: 2^n, 2^n +- 1, 1000-digit numbers, many leading zeros
             which = rnd.randrange(4)
